@@ -28,25 +28,31 @@ PInf == 1000000001
 NInf == -1000000001
 PixD(e) == (1..e.rows) \X (1..e.cols)
 IsNd(e, r, c) == \E b \in 1..e.nb : e.img[b][r][c] = e.nodata
+\* an infinite nodata value: the repository's own test-suite (test_inf_handling) documents that infinite samples of EITHER sign
+\* are then no-data; the statement only says "+-inf included" - for the opposite-sign infinity both readings are accepted
+OppositeInf(e, r, c) == e.nodata \in {PInf, NInf} /\ \E b \in 1..e.nb : e.img[b][r][c] = -e.nodata
 SpecialNd(e) == e.nodata \in {NaNv, PInf, NInf}
-ExpectedSample(e, b, r, c) == IF e.img[b][r][c] = e.nodata /\ SpecialNd(e) THEN -9999 ELSE e.img[b][r][c]
+ExpectedSample(e, b, r, c) == IF e.img[b][r][c] = e.nodata /\ SpecialNd(e) THEN -9999 * e.scale ELSE e.img[b][r][c]
 ExpectedMask(e, r, c) == LET k == MaskClass(IsNd(e, r, c), e.inmask[r][c])
                          IN IF k = 0 THEN e.out.valid_pixels ELSE IF k = 1 THEN e.out.no_data_mask ELSE -1   \* -1: any other value
 DatasetVerdict(e) ==
    LET anynd == \E x \in PixD(e) : IsNd(e, x[1], x[2])
-       badS == {y \in (1..e.nb) \X PixD(e) : e.out.im[y[1]][y[2][1]][y[2][2]] # ExpectedSample(e, y[1], y[2][1], y[2][2])}
+       badS == {y \in (1..e.nb) \X PixD(e) : e.out.im[y[1]][y[2][1]][y[2][2]] # ExpectedSample(e, y[1], y[2][1], y[2][2])
+                                               /\ ~(e.nodata \in {PInf, NInf} /\ e.img[y[1]][y[2][1]][y[2][2]] = -e.nodata /\ e.out.im[y[1]][y[2][1]][y[2][2]] = -9999 * e.scale)}
        hasvar == HasMaskVar(e.mask_given, anynd)
        badM == IF ~e.out.has_msk THEN {}
                ELSE {x \in PixD(e) : LET want == ExpectedMask(e, x[1], x[2])  got == e.out.msk[x[1]][x[2]]
-                                      IN IF want = -1 THEN got \in {e.out.valid_pixels, e.out.no_data_mask} ELSE got # want}
+                                      IN ~(OppositeInf(e, x[1], x[2]) /\ got = e.out.no_data_mask)
+                                         /\ (IF want = -1 THEN got \in {e.out.valid_pixels, e.out.no_data_mask} ELSE got # want)}
    IN [failed |-> (IF badS # {} THEN {"samples_unchanged"} ELSE {})
-                  \cup (IF e.out.has_msk # hasvar THEN {"mask_variable_presence"} ELSE {})
+                  \cup (IF e.out.has_msk # hasvar /\ ~(e.out.has_msk /\ \E x \in PixD(e) : OppositeInf(e, x[1], x[2])) THEN {"mask_variable_presence"} ELSE {})
                   \cup (IF badM # {} THEN {"mask_classes"} ELSE {})
                   \cup (IF ~e.out.dtype_ok THEN {"float32"} ELSE {})
                   \cup (IF ~e.out.bands_ok THEN {"band_names"} ELSE {})
                   \cup (IF ~e.out.coords_ok THEN {"coordinates"} ELSE {})
                   \cup (IF ~e.out.disp_ok THEN {"disparity_variable"} ELSE {})
-                  \cup (IF e.out.no_data_img # (IF SpecialNd(e) /\ anynd THEN -9999 ELSE e.nodata) THEN {"no_data_img_attribute"} ELSE {}),
+                  \cup (IF e.out.no_data_img # (IF SpecialNd(e) /\ anynd THEN -9999 * e.scale ELSE e.nodata)
+                            /\ ~(e.out.no_data_img = -9999 * e.scale /\ \E x \in PixD(e) : OppositeInf(e, x[1], x[2])) THEN {"no_data_img_attribute"} ELSE {}),
        detail |-> IF badS # {} THEN LET y == CHOOSE z \in badS : TRUE IN <<"sample", y[1], y[2][1], y[2][2], e.img[y[1]][y[2][1]][y[2][2]], e.out.im[y[1]][y[2][1]][y[2][2]]>>
                   ELSE IF badM # {} THEN LET x == CHOOSE z \in badM : TRUE IN <<"mask", x[1], x[2], e.inmask[x[1]][x[2]], IsNd(e, x[1], x[2]), e.out.msk[x[1]][x[2]]>>
                   ELSE <<>>]
